@@ -5,6 +5,7 @@ import (
 	"fmt"
 	"net"
 	"runtime/debug"
+	"slices"
 	"sync"
 	"time"
 
@@ -42,6 +43,7 @@ type upItem struct {
 	File int    `json:"file,omitempty"`
 	Off  int    `json:"off,omitempty"`
 	Len  int    `json:"len,omitempty"`
+	Only []int  `json:"only_files,omitempty"` // 1210: announce just these files (nil: all of them)
 }
 
 type upScript struct {
@@ -76,8 +78,10 @@ func (s upScript) encode(it upItem, serial uint16) []byte {
 	switch it.Kind {
 	case "1210":
 		var files []ref.AttachFile
-		for _, f := range s.Files {
-			files = append(files, ref.AttachFile{Name: f.Name, Size: uint32(f.Size)})
+		for i, f := range s.Files {
+			if it.Only == nil || slices.Contains(it.Only, i) {
+				files = append(files, ref.AttachFile{Name: f.Name, Size: uint32(f.Size)})
+			}
 		}
 		sign := ref.AlarmSign(s.Dialect, s.TerminalID, [6]byte{0x24, 0x10, 0x01, 0x12, 0x30, 0x45}, 1, byte(len(files)))
 		return hdr(0x1210, ref.Body1210(s.Dialect, s.TerminalID, s.AlarmID, sign, 0, files))
